@@ -4,6 +4,7 @@ import (
 	"flag"
 	"fmt"
 	"os"
+	"sort"
 	"strconv"
 	"strings"
 	"sync"
@@ -51,6 +52,8 @@ func Main(args []string) int {
 		}
 		seed, _ := strconv.ParseInt(os.Getenv("VERIF_SEED"), 10, 64)
 		return RunCheck(CheckOpts{Property: *prop, Tier: *tier, Seed: seed, Contracts: *contracts, Repo: *repo, Verbose: *verbose, NoEvidence: *noEv, WriteLedger: *ledger})
+	case "all":
+		return runAll(args[1:])
 	case "func":
 		// debugging aid: verify one function and print every instance
 		return debugFunc(args[1:])
@@ -114,6 +117,10 @@ func debugFunc(args []string) int {
 				if ins[0].Cover {
 					if status == "unsat" {
 						fmt.Fprintf(&sb, "  [VACUOUS] %s\n", n)
+						if *dump != "" {
+							os.MkdirAll(*dump, 0o755)
+							os.WriteFile(fmt.Sprintf("%s/cover%d.smt2", *dump, i), []byte(BuildQuery(fr, ins[0])+"(check-sat)\n"), 0o644)
+						}
 					}
 					res[i] = sb.String()
 					return
@@ -148,3 +155,115 @@ func debugFunc(args []string) int {
 }
 
 var DebugSolver = os.Getenv("GTV_DEBUG_SOLVER") != ""
+
+// runAll verifies every function that has a contract and prints one line per
+// obligation that is not discharged (used for development and the selftest).
+func runAll(args []string) int {
+	fs := flag.NewFlagSet("all", flag.ExitOnError)
+	contracts := fs.String("contracts", "", "contract file")
+	repo := fs.String("repo", "/repo", "repo")
+	quiet := fs.Bool("q", false, "only failures")
+	fs.Parse(args)
+	if *contracts == "" {
+		*contracts = *repo + "/contracts_verif.go"
+	}
+	p, err := Load(*repo)
+	if err != nil {
+		fmt.Println("LOAD-ERROR", err)
+		return 2
+	}
+	cs, err := ParseContracts(*contracts)
+	if err != nil {
+		fmt.Println("CONTRACT-ERROR", err)
+		return 2
+	}
+	var names []string
+	for n, fc := range cs.Funcs {
+		if strings.HasPrefix(n, "ff:") || strings.HasPrefix(n, "if:") || fc.Trusted || inlineOnly(fc) {
+			continue
+		}
+		names = append(names, n)
+	}
+	sort.Strings(names)
+	total, bad := 0, 0
+	var frs []*FuncResult
+	for _, n := range names {
+		fn := p.Funcs[n]
+		if fn == nil {
+			fmt.Printf("MISSING function %s\n", n)
+			bad++
+			continue
+		}
+		frs = append(frs, VerifyFunction(p, cs, fn, false, nil))
+	}
+	type item struct {
+		fr  *FuncResult
+		n   string
+		ins []*Instance
+	}
+	var items []item
+	for _, fr := range frs {
+		if fr.OutOfReach != "" {
+			fmt.Printf("OUT-OF-REACH %s: %s\n", fr.Name, fr.OutOfReach)
+			bad++
+			continue
+		}
+		groups := map[string][]*Instance{}
+		var order []string
+		for _, in := range fr.Insts {
+			if _, ok := groups[in.Name]; !ok {
+				order = append(order, in.Name)
+			}
+			groups[in.Name] = append(groups[in.Name], in)
+		}
+		for _, n := range order {
+			items = append(items, item{fr, n, groups[n]})
+		}
+	}
+	out := make([]string, len(items))
+	var wg sync.WaitGroup
+	sem := make(chan struct{}, 16)
+	for i, it := range items {
+		wg.Add(1)
+		sem <- struct{}{}
+		go func(i int, it item) {
+			defer wg.Done()
+			defer func() { <-sem }()
+			status, _, r := SolveGroup(it.fr, it.ins, 10, false)
+			if it.ins[0].Cover {
+				if status == "unsat" {
+					out[i] = fmt.Sprintf("VACUOUS %s", it.n)
+				}
+				return
+			}
+			if status != "unsat" {
+				out[i] = fmt.Sprintf("FAIL[%s] %s -- %s", status, it.n, it.ins[0].Clause)
+			} else if !*quiet {
+				out[i] = ""
+			}
+			_ = r
+		}(i, it)
+	}
+	wg.Wait()
+	for _, o := range out {
+		total++
+		if o != "" {
+			bad++
+			fmt.Println(o)
+		}
+	}
+	for _, m := range contractErrors {
+		fmt.Println(m)
+		bad++
+	}
+	fmt.Printf("ALL: %d functions, %d obligations, %d not discharged\n", len(frs), total, bad)
+	if bad > 0 {
+		return 1
+	}
+	return 0
+}
+
+// inlineOnly: the contract only says "inline" (the body is verified in each caller's context).
+func inlineOnly(fc *FuncContract) bool {
+	return fc.Inline && len(fc.Requires) == 0 && len(fc.Ensures) == 0 && len(fc.At) == 0 && !fc.HasAssign && !fc.HasNoPanic
+}
